@@ -21,6 +21,117 @@ Lemma destroy_keeps h w : w_omp (destroy h w) = w_omp w /\ w_ts (destroy h w) = 
   w_workers (destroy h w) = w_workers w /\ w_peak (destroy h w) = w_peak w.
 Proof. unfold destroy. destruct (h_ctl h); simpl; repeat split. Qed.
 
+(* ---- uses never change what is reported: a history with uses is observationally the history of its inits *)
+Definition sim (b : backend) (w w' : world) : Prop :=
+  w_handle w = w_handle w' /\ w_controls w = w_controls w' /\ w_omp w = w_omp w' /\
+  (b = Internal -> w_handle w <> None -> w_ts w = w_ts w').
+Definition good (w : world) : Prop := w_handle w <> None -> w_ts w <> None.   (* internal: a handle implies a scheduler *)
+
+Lemma run_ops_snoc b hw ops o : run_ops b hw (ops ++ [o]) = step_op b hw (run_ops b hw ops) o.
+Proof. unfold run_ops. rewrite fold_left_app. reflexivity. Qed.
+Lemma inits_of_snoc ops o : inits_of (ops ++ [o]) = inits_of ops ++ match o with OInit n => [n] | OUse => [] end.
+Proof. unfold inits_of. rewrite flat_map_app. simpl. rewrite app_nil_r. reflexivity. Qed.
+
+Lemma report_sim b hw w w' : sim b w w' -> report b hw w = report b hw w'.
+Proof.
+  intros [H [C [O T]]]. unfold report, limit. rewrite <- H. destruct (w_handle w) eqn:E; [|reflexivity].
+  rewrite C, O. destruct b; try reflexivity. rewrite T by (reflexivity || discriminate). reflexivity.
+Qed.
+
+Lemma destroy_fields h w :
+  w_controls (destroy h w) = match h_ctl h with Some v => remove_one v (w_controls w) | None => w_controls w end /\
+  w_omp (destroy h w) = w_omp w /\ w_ts (destroy h w) = w_ts w.
+Proof. unfold destroy. destruct (h_ctl h); repeat split; reflexivity. Qed.
+
+Lemma init_fields b hw n w :
+  let w1 := snd (construct b hw n w) in
+  w_handle (init_sys b hw n w) = Some (fst (construct b hw n w)) /\
+  w_controls (init_sys b hw n w) =
+    match w_handle w with
+    | Some old => match h_ctl old with Some v => remove_one v (w_controls w1) | None => w_controls w1 end
+    | None => w_controls w1
+    end /\
+  w_omp (init_sys b hw n w) = w_omp w1 /\ w_ts (init_sys b hw n w) = w_ts w1.
+Proof.
+  unfold init_sys. destruct (construct b hw n w) as [h w1]. simpl.
+  destruct (w_handle w) as [old|]; simpl; [|repeat split; reflexivity].
+  destruct (destroy_fields old w1) as [D1 [D2 D3]]. rewrite D1, D2, D3. repeat split; reflexivity.
+Qed.
+
+Lemma construct_sim b hw n w w' : sim b w w' ->
+  fst (construct b hw n w) = fst (construct b hw n w') /\
+  w_controls (snd (construct b hw n w)) = w_controls (snd (construct b hw n w')) /\
+  w_omp (snd (construct b hw n w)) = w_omp (snd (construct b hw n w')) /\
+  (b = Internal -> w_ts (snd (construct b hw n w)) = w_ts (snd (construct b hw n w'))).
+Proof.
+  intros [H [C [O T]]]. destruct b; simpl.
+  - destruct (0 <? n); simpl; rewrite ?C, ?O; repeat split; try reflexivity; intro; discriminate.
+  - destruct (0 <? n); simpl; rewrite ?C, ?O; repeat split; try reflexivity; intro; discriminate.
+  - rewrite ?C, ?O. repeat split; reflexivity.
+  - rewrite ?C, ?O. repeat split; try reflexivity; intro; discriminate.
+Qed.
+
+Lemma init_sim b hw n w w' : sim b w w' -> sim b (init_sys b hw n w) (init_sys b hw n w').
+Proof.
+  intro S. destruct (construct_sim b hw n w w' S) as [K1 [K2 [K3 K4]]].
+  destruct S as [H [C [O T]]].
+  destruct (init_fields b hw n w) as [A1 [A2 [A3 A4]]]. destruct (init_fields b hw n w') as [B1 [B2 [B3 B4]]].
+  unfold sim. rewrite A1, A2, A3, A4, B1, B2, B3, B4, <- H, K1, K2, K3. repeat split; try reflexivity.
+  intros E _. apply K4. exact E.
+Qed.
+
+Lemma init_good hw n w : good (init_sys Internal hw n w).
+Proof.
+  unfold good. destruct (init_fields Internal hw n w) as [_ [_ [_ A4]]]. rewrite A4. simpl. intros _. discriminate.
+Qed.
+
+Lemma use_sim b hw w : (b = Internal -> good w) -> sim b (use_sys b hw w) w.
+Proof.
+  intro G. unfold use_sys, sim. destruct b; try (repeat split; reflexivity).
+  destruct (w_ts w) eqn:E; [repeat split; try reflexivity; intros; first [exact E | symmetry; exact E]|]. simpl. repeat split; try reflexivity.
+  intros _ H. exfalso. apply (G eq_refl H). exact E.
+Qed.
+Lemma use_good b hw w : good w -> good (use_sys b hw w).
+Proof.
+  unfold good, use_sys. intro G. destruct b; try exact G. destruct (w_ts w) eqn:E.
+  - intros _. rewrite E. discriminate.
+  - simpl. intros _. discriminate.
+Qed.
+Lemma sim_trans k a b c : sim k a b -> sim k b c -> sim k a c.
+Proof.
+  intros [H1 [C1 [O1 T1]]] [H2 [C2 [O2 T2]]]. unfold sim. repeat split; try congruence.
+  intros K H. rewrite T1 by assumption. apply T2; [exact K|]. rewrite <- H1. exact H.
+Qed.
+Lemma sim_refl k a : sim k a a.
+Proof. unfold sim. repeat split; reflexivity. Qed.
+
+Lemma uses_transparent b hw ops :
+  sim b (run_ops b hw ops) (run b hw (inits_of ops)) /\ (b = Internal -> good (run_ops b hw ops)).
+Proof.
+  induction ops as [|o ops IH] using rev_ind.
+  - split; [apply sim_refl|]. intros _ H. exfalso. apply H. reflexivity.
+  - destruct IH as [S G]. rewrite run_ops_snoc, inits_of_snoc. destruct o as [n|]; simpl.
+    + rewrite run_snoc. split; [apply init_sim; exact S | intros ->; apply init_good].
+    + rewrite app_nil_r. split.
+      * eapply sim_trans; [apply use_sim; exact G | exact S].
+      * intro E. apply use_good. apply G. exact E.
+Qed.
+
+Lemma report_ops_is_report_of_inits b hw ops : report b hw (run_ops b hw ops) = report b hw (run b hw (inits_of ops)).
+Proof. apply report_sim. apply uses_transparent. Qed.
+
+Lemma zero_without_init b hw ops : inits_of ops = [] -> report b hw (run_ops b hw ops) = 0.
+Proof. intro E. rewrite report_ops_is_report_of_inits, E. reflexivity. Qed.
+
+Lemma reports_ops_from_snoc b hw : forall ops w o,
+  reports_ops_from b hw w (ops ++ [o]) =
+  reports_ops_from b hw w ops ++ [report b hw (fold_left (step_op b hw) (ops ++ [o]) w)].
+Proof.
+  induction ops as [|a r IH]; intros w o.
+  - reflexivity.
+  - cbn [app reports_ops_from fold_left]. rewrite IH. destruct r; reflexivity.
+Qed.
+
 Section HW.
   Variable hw : Z.
   Hypothesis hw_pos : 0 < hw.
